@@ -276,6 +276,41 @@ theorem C17_hexts (ts : Bytes) (hl : ts.length ≤ 16) :
 
 example : parseHexTimestamp [49, 51, 50, 100, 48, 98, 54] = .ok [0, 0, 0, 0, 0x01, 0x32, 0xd0, 0xb6] := by decide   -- "132d0b6"
 
+/-- C17 (hex timestamps, beyond the documented 16 digits): nothing is padded; a text of even length made of hexadecimal
+digits decodes to its value on `length / 2` bytes (more than 8: OCRA admission then refuses it), an odd length or any other
+character is rejected.  With `C17_hexts` this characterises `ParseHexTimestamp` on every input. -/
+theorem C17_hexts_long (ts : Bytes) (hl : 16 < ts.length) :
+    (ts.length % 2 = 0 → ts.all isHexChar = true →
+        ∃ b, parseHexTimestamp ts = .ok b ∧ 2 * b.length = ts.length ∧ beValue b = hexValue ts) ∧
+    ((ts.length % 2 = 1 ∨ ts.all isHexChar = false) → parseHexTimestamp ts = .err .badHex) := by
+  have hp : List.replicate (16 - ts.length) (48 : UInt8) ++ ts = ts := by
+    have : 16 - ts.length = 0 := by omega
+    rw [this]; rfl
+  have hsome := hexDecode_isSome ts
+  constructor
+  · intro he ha
+    rw [ha, he] at hsome
+    obtain ⟨b, hb⟩ := Option.isSome_iff_exists.mp (by simpa using hsome)
+    obtain ⟨hv, hlen⟩ := hexDecode_value _ b hb
+    refine ⟨b, ?_, hlen, ?_⟩
+    · unfold parseHexTimestamp; simp only [hp, hb]
+    · have := hv 0
+      unfold beValue hexValue
+      exact this
+  · intro h
+    have : hexDecode ts = none := by
+      cases hd : hexDecode ts with
+      | none => rfl
+      | some _ =>
+        rw [hd] at hsome
+        rcases h with h | h
+        · rw [h] at hsome; simp at hsome
+        · rw [h] at hsome; simp at hsome
+    unfold parseHexTimestamp; simp only [hp, this]
+
+example : parseHexTimestamp (List.replicate 18 49) = .ok (List.replicate 9 0x11) := by decide
+example : parseHexTimestamp (List.replicate 17 49) = .err .badHex := by decide
+
 theorem hexOfNatAux_hex : ∀ (fuel n : Nat) (acc : Bytes), acc.all isHexChar = true → (hexOfNatAux fuel n acc).all isHexChar = true := by
   intro fuel
   induction fuel with
@@ -419,6 +454,7 @@ end OtpVerif.Props.C17
 #print axioms OtpVerif.Props.C17.C17_question
 #print axioms OtpVerif.Props.C17.C17_end2end
 #print axioms OtpVerif.Props.C17.C17_hexts
+#print axioms OtpVerif.Props.C17.C17_hexts_long
 #print axioms OtpVerif.Props.C17.C17_question_value
 #print axioms OtpVerif.Props.C17.hexDecode_value
 #print axioms OtpVerif.Props.C17.hexDecode_isSome
